@@ -5,7 +5,7 @@ use crate::bvgen::*;
 use crate::common::*;
 use simple_sds::bit_vector::BitVector;
 use simple_sds::ops::*;
-use simple_sds::raw_vector::{PushRaw, RawVector};
+use simple_sds::raw_vector::{PopRaw, PushRaw, RawVector};
 use simple_sds::rl_vector::{RLBuilder, RLVector};
 use simple_sds::sparse_vector::{SparseBuilder, SparseVector};
 use std::convert::TryFrom;
@@ -120,6 +120,23 @@ fn direct_bv(bits: &[bool]) -> (BitVector, bool) {
         let k = std::cmp::min(64, left);
         unsafe { raw.push_int(*w, k); }
         left -= k;
+    }
+    // the raw vector has a history: one more integer of all ones was pushed (a width that makes it straddle a word
+    // boundary where possible) and popped again; or the vector was a few set bits longer and was resized down
+    match bits.len() % 3 {
+        0 => {
+            let w = [40usize, 13, 64, 7][(bits.len() / 3) % 4];
+            unsafe { raw.push_int(u64::MAX, w); }
+            let _ = unsafe { raw.pop_int(w) };
+        }
+        1 => {
+            let extra = 1 + (bits.len() / 3) % 9;
+            for _ in 0..extra {
+                raw.push_bit(true);
+            }
+            raw.resize(bits.len(), false);
+        }
+        _ => {}
     }
     let a = BitVector::from(raw);
     let b: BitVector = bits.iter().cloned().collect();
